@@ -1125,6 +1125,13 @@ int32 psX509ParseCRL(psPool_t *pool, psX509Crl_t **crl, unsigned char *crlBin,
                     psX509FreeCRL(lcrl);
                     return PS_PARSE_FAIL;
                 }
+                p += timelen;
+                if ((uint32) (p - start) > ilen)
+                {
+                    psTraceCrypto("revokedCert entry longer than its SEQUENCE\n");
+                    psX509FreeCRL(lcrl);
+                    return PS_PARSE_FAIL;
+                }
 
                 /* skipping crlEntryExtensions */
                 p += ilen - (uint32) (p - start);
